@@ -146,7 +146,7 @@ pub fn play_session(d: &mut dyn Driver, rng: &mut StdRng, starts: &mut gen::Star
         if rng.gen_range(0..6) == 0 { extra.push(Gui::IsReady); }
         if rng.gen_range(0..8) == 0 { extra.push(Gui::Debug(rng.gen_bool(0.5))); }
         let (go, stop) = random_go(rng, &cur, true);
-        let c = Cycle { new_game: i == 0 || rng.gen_range(0..15) == 0, position: Some((fen.clone(), moves.clone())), go, stop_after_us: stop, extra, during: random_during(rng), follow_ponder: false, sibling: false, late_stop: false };
+        let c = Cycle { new_game: i == 0 || rng.gen_range(0..15) == 0, position: Some((fen.clone(), moves.clone())), go: go.clone(), stop_after_us: stop, extra, during: during_for(&go, rng), follow_ponder: false, sibling: false, late_stop: false };
         script_log.push(format!("{} | {}", Gui::Position { fen: fen.clone(), moves: moves.clone() }.text(), Gui::Go(c.go.clone()).text()));
         let replay = json!({"kind":"c16-session","script": script_log.iter().rev().take(6).collect::<Vec<_>>()});
         match run_cycle(d, &c) {
@@ -192,7 +192,7 @@ pub fn root_session(d: &mut dyn Driver, rng: &mut StdRng, starts: &mut gen::Star
         prev_cmd = Some(cmd.clone());
         let (mut go, mut stop) = random_go(rng, &root.pos, true);
         if rng.gen_bool(0.6) { go = GoSpec { depth: Some(rng.gen_range(3..=5)), ..Default::default() }; stop = None; }
-        let c = Cycle { new_game: i == 0 || rng.gen_range(0..10) == 0, position: Some(cmd.clone()), go, stop_after_us: stop, extra: vec![], during: random_during(rng), follow_ponder: false, sibling: false, late_stop: false };
+        let c = Cycle { new_game: i == 0 || rng.gen_range(0..10) == 0, position: Some(cmd.clone()), go: go.clone(), stop_after_us: stop, extra: vec![], during: during_for(&go, rng), follow_ponder: false, sibling: false, late_stop: false };
         let replay = json!({"kind":"c16-session","script":[format!("{} | {}", Gui::Position { fen: cmd.0.clone(), moves: cmd.1.clone() }.text(), Gui::Go(c.go.clone()).text())]});
         match run_cycle(d, &c) {
             CycleResult::Answered(out) => {
